@@ -385,6 +385,7 @@ class Histories(Part):
                     if not compare(ctx, r, m, desc, "copy"):
                         return
                     applied += 1
+                    ctx.cls("copy-kept")
                     continue
                 new = (r, m.copy())
             elif name == "stylize":
@@ -447,6 +448,10 @@ class Histories(Part):
                 return
             pool[i] = new
             ctx.cls(name)
+            # values that were not the target of the operation must be untouched (no aliasing between copies)
+            for j, (ot, om) in enumerate(pool):
+                if j != i and not compare(ctx, ot, om, desc + " (another value, #%d, afterwards)" % j, "alias-" + name):
+                    return
         styled_survivor = any(o for _, mm in pool for _, o in mm.chars if o) or any(mm.base is not None and len(mm) for _, mm in pool)
         if applied >= 4 and styled_survivor and moved:
             ctx.nontrivial = True
